@@ -39,6 +39,7 @@ type dg struct {
 
 type scenario struct {
 	Backlog    int     `json:"backlog"`
+	SockBuf    int     `json:"sockBuf,omitempty"` // ListenConfig.ReadBufferSize / WriteBufferSize: a wish for the operating system's socket buffers, nothing the listener itself may enforce
 	Filter     bool    `json:"filter"`
 	Batch      bool    `json:"batch"`
 	BatchRead  int     `json:"batchRead"`
@@ -61,6 +62,7 @@ type scenario struct {
 	// TickClose: batch mode: everything is closed right at a tick of the flush ticker (period
 	// 30 min), TickDeltaNs before (+) or after (-) it, with a write still queued
 	TickClose   bool  `json:"tickClose,omitempty"`
+	Waiters     int   `json:"waiters,omitempty"` // before everything is closed, this many further goroutines block in Read on each open connection: Close releases all of them
 	TickDeltaNs int64 `json:"tickDeltaNs,omitempty"`
 	SamePort  bool   `json:"samePort,omitempty"` // the remotes share one port and differ in a high octet of their address (127.<i>.7.9:7001) instead of sharing the address
 	ReadBuf   int    `json:"readBuf,omitempty"` // readers use slices of this length (0: large): longer datagrams come back cut, with a short-buffer error, and are consumed whole
@@ -72,7 +74,7 @@ type scenario struct {
 var gaps = []int64{0, 0, 1, 1000, 100000, 1000000, 5000000}
 
 func gen(r *harn.Rng, tier string) interface{} {
-	sc := &scenario{Backlog: r.Pick(1, 1, 2, 3, 8), Filter: r.Bool(0.3)}
+	sc := &scenario{Backlog: r.Pick(1, 1, 2, 3, 8), Filter: r.Bool(0.3), SockBuf: r.Pick(0, 0, 0, 1, 64, 300, 4096)}
 	if r.Bool(0.3) {
 		sc.Batch = true
 		sc.BatchRead = r.Pick(0, 2, 4)
@@ -138,6 +140,7 @@ func gen(r *harn.Rng, tier string) interface{} {
 	}
 	sc.DoubleClose = r.Bool(0.3)
 	sc.SamePort = r.Bool(0.3)
+	sc.Waiters = r.Pick(0, 0, 0, 1, 2, 3)
 	if sc.Batch && r.Bool(0.4) {
 		sc.TickClose = true
 		sc.TickDeltaNs = int64(r.Pick(0, 0, 1, 100, 1000, -1, -100))
@@ -183,7 +186,7 @@ func run(env *simrt.Env, sci interface{}) {
 	c12 := prop == "C12"
 	simnet.Reset(env.Stamp)
 	simnet.SetFaults(simnet.Faults{DropP: sc.DropP, DupP: sc.DupP, DelayP: sc.DelayP, MaxDelay: time.Duration(sc.MaxDelayNs)})
-	lc := udp.ListenConfig{Backlog: sc.Backlog}
+	lc := udp.ListenConfig{Backlog: sc.Backlog, ReadBufferSize: sc.SockBuf, WriteBufferSize: sc.SockBuf}
 	if sc.Filter {
 		lc.AcceptFilter = func(b []byte) bool { return len(b) > 0 && b[0]%2 == 0 }
 	}
@@ -489,6 +492,38 @@ func run(env *simrt.Env, sci interface{}) {
 			break
 		}
 	}
+	type waiterRec struct {
+		h   *simrt.Handle
+		idx int
+	}
+	var waiters []waiterRec
+	if sc.Waiters > 0 && !sc.TickClose {
+		for _, c := range conns {
+			if c.closeInv != 0 {
+				continue
+			}
+			c := c
+			for k := 0; k < sc.Waiters; k++ {
+				h := env.Go(fmt.Sprintf("waiter%d-%d", c.idx, k), func() {
+					buf := make([]byte, 9000)
+					for {
+						n, err := c.conn.Read(buf)
+						if err != nil {
+							return
+						}
+						// nothing is under way any more; should a datagram turn up it counts as read
+						c.reads = append(c.reads, append([]byte(nil), buf[:n]...))
+						c.readStamps = append(c.readStamps, env.Stamp())
+					}
+				})
+				waiters = append(waiters, waiterRec{h, c.idx})
+			}
+		}
+		if len(waiters) > 0 {
+			settle() // all of them are parked inside Read now
+			env.Fault("several-readers-blocked-at-close")
+		}
+	}
 	// ---------------- teardown: close everything (idempotently), then the socket must be gone
 	teardownStart := env.Stamp()
 	if listenerCloseInv == 0 {
@@ -527,6 +562,12 @@ func run(env *simrt.Env, sci interface{}) {
 		for _, c := range conns {
 			if !c.reader.Finished() {
 				env.Fail("C12/read-not-released", "Read on connection #%d still blocked after it was closed", c.idx)
+				return
+			}
+		}
+		for _, w := range waiters {
+			if !w.h.Finished() {
+				env.Fail("C12/read-not-released", "connection #%d was closed while %d goroutines were blocked in Read on it; one of them is still blocked", w.idx, sc.Waiters+1)
 				return
 			}
 		}
